@@ -51,6 +51,7 @@ func (m *Mutex) Unlock() {
 	}
 	m.held = false
 	sched.UntrackHeld(m)
+	sched.Post("unlock", m)
 }
 
 // RWMutex mirrors sync.RWMutex, writer-preferring exactly like Go's: Lock
@@ -92,6 +93,7 @@ func (m *RWMutex) Unlock() {
 	if m.readers == 0 {
 		sched.UntrackHeld(m)
 	}
+	sched.Post("wunlock", m)
 }
 
 func (m *RWMutex) RLock() {
@@ -149,6 +151,9 @@ func (w *WaitGroup) Add(delta int) {
 			return
 		}
 		panic("sync: negative WaitGroup counter")
+	}
+	if delta < 0 {
+		sched.Post("wg-done", w)
 	}
 }
 
